@@ -7,6 +7,8 @@ import (
 const (
 	ProtocolVersion        = 0x00001000
 	DefaultUpstreamMtuSize = 0xFF
+	// MaxDownstreamFragmentSize is the largest downstream fragment a client may ask for; a DNS message cannot carry more
+	MaxDownstreamFragmentSize = 0xFFFF
 )
 
 func secs(i int) time.Duration {
